@@ -103,31 +103,20 @@ func (m *ModuleCors) loadRuleData(query url.Values) (string, error) {
 // Add `Origin` in the Vary response header, to indicate to clients that server responses will differ based on the value
 // of the Origin request header
 func addVaryHeader(rspHeader bfe_http.Header) {
-	varyValue := rspHeader.Get(HeaderVary)
-	if len(varyValue) == 0 {
-		rspHeader.Set(HeaderVary, HeaderOrigin)
-		return
-	}
-
-	if varyValue == "*" {
-		return
-	}
-
-	needAddOrigin := true
-	items := strings.Split(varyValue, ",")
-	for _, item := range items {
-		if strings.TrimSpace(item) == HeaderOrigin {
-			needAddOrigin = false
-			break
+	// the response may carry several Vary lines; look at all of them
+	for _, varyValue := range rspHeader[HeaderVary] {
+		for _, item := range strings.Split(varyValue, ",") {
+			item = strings.TrimSpace(item)
+			if item == "*" || strings.EqualFold(item, HeaderOrigin) {
+				return
+			}
 		}
 	}
 
-	if needAddOrigin {
-		varyValue += fmt.Sprintf(",%s", HeaderOrigin)
-	}
+	// keep the existing values and add Origin
+	rspHeader.Add(HeaderVary, HeaderOrigin)
 }
 
-// set response header for preflight request
 func (m *ModuleCors) setRespHeaderForPreflght(request *bfe_basic.Request, rspHeader bfe_http.Header, rule *CorsRule) {
 	origin := request.HttpRequest.Header.Get(HeaderOrigin)
 	allow, matchedOrigin := matchOriginAllowed(origin, rule)
